@@ -1,4 +1,4 @@
-HOOK_COMMITS = ['81c746f']
+HOOK_COMMITS = ['81c746f', 'eeb4891']
 
 META = {
     'C06': {
@@ -16,6 +16,21 @@ META = {
                  "returned slices and negative widths are not modelled."),
         'technique': 'Coq refinement proof + extracted-model correspondence + translated-table obligations',
     },
+}
+
+META['C07'] = {
+    'text': ("Machine-checked proof (Coq) over a model of the repaired BOC parser in which every Go slice, index and "
+             "make() carries its panic condition: the parser returns Ok or Err for every byte string (never Panic), its "
+             "modelled allocations are bounded by 640*len bytes, every returned cell has <= 1023 bits and <= 4 refs with "
+             "all references strictly forward and in range and all roots in range, hence the unfolding to a tree is "
+             "total (recursion over references terminates). The extracted model (incl. a Gallina SHA-256 for the root "
+             "hashes) is run against boc.DeserializeBoc in a memory-limited child on valid, truncated, substituted, "
+             "adversarial and random inputs."),
+    'design_ref': 'DESIGN.md §6 C07',
+    'note': ("Trusted: Coq kernel, extraction, drivers, Go harness. Real allocator/stack behaviour is runtime (observed "
+             "via the child's address-space limit and timeout); the allocation theorem is about the sum of modelled make() "
+             "capacities. Hashing a cell whose exotic payload is malformed is outside this property."),
+    'technique': 'Coq totality/soundness proof of a panic-annotated parser model + extracted-model correspondence on malformed inputs',
 }
 
 NOT_APPLICABLE = []
